@@ -141,7 +141,12 @@ func (r *ReceiverReport) Unmarshal(rawPacket []byte) error {
 		}
 		r.Reports = append(r.Reports, rr)
 	}
-	r.ProfileExtensions = rawPacket[rrReportOffset+(len(r.Reports)*receptionReportLength):]
+	extensionsOffset := rrReportOffset + (len(r.Reports) * receptionReportLength)
+	if extensionsOffset > len(rawPacket) {
+		// only possible when r already held reports before this call
+		return errPacketTooShort
+	}
+	r.ProfileExtensions = rawPacket[extensionsOffset:]
 
 	if uint8(len(r.Reports)) != h.Count {
 		return errInvalidHeader
